@@ -57,6 +57,10 @@ FAMILIES = {
         {'family': 'lease', 'knobs': {'lease_cancel': True}, 'quick': 150, 'thorough': 2500, 'first': 300000},
         {'family': 'core', 'knobs': {'late_actions': True, 'p_cancel': 0.3, 'p_auto_request': 0.8, 'p_cancel_race': 0.8,
                                      'kinds': ['stream', 'stream', 'channel']}, 'quick': 150, 'thorough': 2500, 'first': 200000},
+        # the connection is replaced while channels (with a live application publisher), streams and requests are pending: every frame
+        # on the NEW connection belongs to an interaction opened on it
+        {'family': 'reconnect', 'knobs': {'min_pending': 1, 'kinds': ['channel', 'channel', 'stream', 'rr'], 'p_stale_fragments': 0.1},
+         'quick': 200, 'thorough': 3000, 'first': 300000},
     ],
     'C09': [
         {'family': 'tlc', 'knobs': {}, 'quick': 320, 'thorough': 3200, 'first': 500000},
@@ -125,6 +129,9 @@ FAMILIES = {
         {'family': 'adapters', 'knobs': {'version': 'rx'}, 'quick': 300, 'thorough': 5000, 'first': 100000},
         {'family': 'adapters_mixed', 'knobs': {}, 'quick': 300, 'thorough': 5000, 'first': 200000},
         {'family': 'adapters_cut', 'knobs': {}, 'quick': 200, 'thorough': 3000, 'first': 400000},
+        # several interactions in flight at one handler adapter: request-responses answered asynchronously, in any order, next to streams
+        {'family': 'adapters', 'knobs': {'min_inter': 2, 'max_inter': 4, 'kinds': ['rr', 'rr', 'rr', 'stream', 'channel'],
+                                         'rr_modes': ['later', 'later', 'later', 'immediate', 'error']}, 'quick': 200, 'thorough': 3000, 'first': 500000},
     ],
     'C10': [
         {'family': 'tlc', 'knobs': {}, 'quick': 320, 'thorough': 3200, 'first': 500000},
